@@ -6,10 +6,11 @@ import (
 	"fmt"
 	"os"
 	"path/filepath"
-	"regexp"
 	"sort"
 	"strings"
 	"testing"
+	"unicode"
+	"unicode/utf8"
 
 	"github.com/modernizing/coca/pkg/application/analysis/javaapp"
 	rename "github.com/modernizing/coca/pkg/application/refactor/rename"
@@ -35,7 +36,7 @@ var keywords = map[string]bool{"do": true, "if": true, "for": true, "int": true,
 	"char": true, "else": true, "enum": true, "goto": true, "long": true, "null": true, "this": true, "true": true, "void": true, "to": true, "with": true, "non": true}
 
 func gen(t *rapid.T) Case {
-	p := jgen.GenProject(t, jgen.Opts{Bodies: true, MultiByte: true, Interfaces: true, MaxUnits: 4, MaxMethods: 4, Wide: true, RichDecl: true, SharedMethodNames: true, WildcardProjectImports: true, SuperCallsDeclared: true})
+	p := jgen.GenProject(t, jgen.Opts{Bodies: true, MultiByte: true, Interfaces: true, MaxUnits: 4, MaxMethods: 4, Wide: true, RichDecl: true, SharedMethodNames: true, WildcardProjectImports: true, SuperCallsDeclared: true, ExoticNames: true})
 	// some files use CRLF line ends: columns and lines are unaffected, every other byte must survive
 	for i := range p.Files {
 		if strings.HasSuffix(p.Files[i].Path, ".java") && rapid.IntRange(0, 7).Draw(t, "crlf") == 0 {
@@ -98,19 +99,39 @@ func gen(t *rapid.T) Case {
 	sort.Slice(pick, func(i, j int) bool { return pick[i].sites > pick[j].sites })
 	cd := pick[rapid.IntRange(0, len(pick)-1).Draw(t, "subject")]
 	c.Class, c.Old = cd.class, cd.name
-	// a new name of any length 1..40, letters only: project identifiers all end in digits, so it is fresh
+	// a new name of any length 1..40 (in characters): letters, then 0..3 of its characters replaced by
+	// other identifier characters (`_`, `$`, a digit, letters outside ASCII)
 	var nn string
 	switch rapid.IntRange(0, 3).Draw(t, "newLen") {
 	case 0:
 		nn = rapid.StringMatching(`[a-z]`).Draw(t, "new1")
 	case 1:
-		nn = rapid.StringMatching(`[a-z][a-zA-Z]{`+fmt.Sprint(len(cd.name)-1)+`}`).Draw(t, "newSameLen")
+		nn = rapid.StringMatching(`[a-z][a-zA-Z]{`+fmt.Sprint(utf8.RuneCountInString(cd.name)-1)+`}`).Draw(t, "newSameLen")
 	case 2:
 		nn = rapid.StringMatching(`[a-z][a-zA-Z]{20,39}`).Draw(t, "newLong")
 	default:
 		nn = rapid.StringMatching(`[a-z][a-zA-Z]{0,12}`).Draw(t, "newAny")
 	}
-	if keywords[nn] || len(nn) > 1 && jgenKeyword(nn) {
+	if k := rapid.IntRange(0, 5).Draw(t, "newExotic") - 2; k > 0 {
+		rs := []rune(nn)
+		for ; k > 0; k-- {
+			at := rapid.IntRange(0, len(rs)-1).Draw(t, "newExoticAt")
+			r := rapid.SampledFrom(exoticRunes).Draw(t, "newExoticRune")
+			if at == 0 && unicode.IsDigit(r) {
+				r = '$'
+			}
+			rs[at] = r
+		}
+		nn = string(rs)
+	}
+	// fresh in the project, and no keyword (`_` alone is one)
+	taken := map[string]bool{"_": true}
+	for _, f := range p.Files {
+		for _, id := range strings.FieldsFunc(f.Text, func(r rune) bool { return !identPart(r) }) {
+			taken[id] = true
+		}
+	}
+	for taken[nn] || keywords[nn] || jgenKeyword(nn) {
 		nn += "Q"
 	}
 	c.New = nn
@@ -146,7 +167,6 @@ func gen(t *rapid.T) Case {
 			if clash {
 				continue
 			}
-			re := regexp.MustCompile(`\b` + regexp.QuoteMeta(u.Name) + `\b`)
 			nu := u
 			nu.Name = twin
 			nu.Path = strings.TrimSuffix(u.Path, u.Name+".java") + twin + ".java"
@@ -156,12 +176,44 @@ func gen(t *rapid.T) Case {
 					nu.Funcs[k].Name = twin
 				}
 			}
-			c.Project.Files = append(append([]jgen.File(nil), c.Project.Files...), jgen.File{Path: nu.Path, Text: re.ReplaceAllString(p.Files[i].Text, twin)})
+			c.Project.Files = append(append([]jgen.File(nil), c.Project.Files...), jgen.File{Path: nu.Path, Text: replaceIdent(p.Files[i].Text, u.Name, twin)})
 			c.Project.Units = append(append([]jgen.UnitTruth(nil), c.Project.Units...), nu)
 			break
 		}
 	}
 	return c
+}
+
+// exoticRunes are identifier characters other than ASCII letters.
+var exoticRunes = []rune{'_', '$', '0', '7', 'é', 'ü', 'ß', 'π', 'д', 'Ж', '値', '名'}
+
+// identPart reports whether r may be part of a Java identifier (as the shipped lexer reads it: ASCII
+// letters, digits, `_`, `$`, and everything above ASCII).
+func identPart(r rune) bool {
+	return r == '_' || r == '$' || r >= '0' && r <= '9' || r >= 'a' && r <= 'z' || r >= 'A' && r <= 'Z' || r > 0x7f
+}
+
+// replaceIdent replaces the occurrences of the identifier old in s (whole identifiers only) by repl.
+func replaceIdent(s, old, repl string) string {
+	var out strings.Builder
+	from := 0
+	for {
+		k := strings.Index(s[from:], old)
+		if k < 0 {
+			break
+		}
+		i := from + k
+		before, _ := utf8.DecodeLastRuneInString(s[:i])
+		after, _ := utf8.DecodeRuneInString(s[i+len(old):])
+		if (i == 0 || !identPart(before)) && (i+len(old) == len(s) || !identPart(after)) {
+			out.WriteString(s[from:i] + repl)
+		} else {
+			out.WriteString(s[from : i+len(old)])
+		}
+		from = i + len(old)
+	}
+	out.WriteString(s[from:])
+	return out.String()
 }
 
 func jgenKeyword(s string) bool {
@@ -315,12 +367,13 @@ func check(c Case) pbt.Verdict {
 			}
 			return es[i].col > es[j].col // right to left within a line
 		})
+		oldLen := utf8.RuneCountInString(c.Old)
 		for _, e := range es {
 			l := []rune(lines[e.line-1])
-			if e.col+len(c.Old) > len(l) || string(l[e.col:e.col+len(c.Old)]) != c.Old {
+			if e.col+oldLen > len(l) || string(l[e.col:e.col+oldLen]) != c.Old {
 				return pbt.Fail("the model's position %s:%d:%d does not select %q in %q", file, e.line, e.col, c.Old, lines[e.line-1])
 			}
-			lines[e.line-1] = string(l[:e.col]) + c.New + string(l[e.col+len(c.Old):])
+			lines[e.line-1] = string(l[:e.col]) + c.New + string(l[e.col+oldLen:])
 		}
 		expected[file] = strings.Join(lines, "\n")
 	}
@@ -360,7 +413,7 @@ func check(c Case) pbt.Verdict {
 	if p != "" {
 		return pbt.Fail("re-analysis panicked: %s", p)
 	}
-	delta := len(c.New) - len(c.Old)
+	delta := utf8.RuneCountInString(c.New) - utf8.RuneCountInString(c.Old) // columns count characters
 	shift := func(file string, line, col int) int {
 		n := 0
 		for _, e := range byFile[file] {
@@ -422,6 +475,20 @@ func check(c Case) pbt.Verdict {
 	if c.CLI {
 		v.Classes = append(v.Classes, "cli")
 	}
+	for _, n := range []struct{ label, name string }{{"old", c.Old}, {"new", c.New}, {"class", cls}} {
+		if strings.ContainsAny(n.name, "_$") {
+			v.Classes = append(v.Classes, n.label+"_name_with_underscore_or_dollar")
+		}
+		if len(n.name) != utf8.RuneCountInString(n.name) {
+			v.Classes = append(v.Classes, n.label+"_name_with_non_ascii_letter")
+		}
+	}
+	if strings.ContainsAny(c.New, "0123456789") {
+		v.Classes = append(v.Classes, "new_name_with_digit")
+	}
+	if strings.ContainsAny(pkg, "_0123456789") {
+		v.Classes = append(v.Classes, "package_with_digit_or_underscore")
+	}
 	return v
 }
 
@@ -443,7 +510,7 @@ func project(model []core_domain.CodeDataStruct, proj string, oldName, newName s
 				// a call chained onto m() is recorded with node "m", one on `new K(m())` with node
 				// "newK(m())": the method's name inside a receiver label follows the rename, so old
 				// and new are the same label here
-				call.NodeName = regexp.MustCompile(`\b`+regexp.QuoteMeta(oldName)+`\b`).ReplaceAllString(call.NodeName, newName)
+				call.NodeName = replaceIdent(call.NodeName, oldName, newName)
 				s += fmt.Sprintf("\n    %s|%s|%s|%s @%d:%d", call.Package, call.NodeName, call.FunctionName, call.Type, call.Position.StartLine, call.Position.StartLinePosition)
 			}
 			fs = append(fs, s)
@@ -480,9 +547,10 @@ func firstDiff(orig, want, got string) string {
 func init() {
 	pbt.SetProperty("C05")
 	jgen.SetExcluded(pbt.Excluded)
-	pbt.Describe("rapid-generated conventional Java projects (jgen, 1-4 units with method bodies, multi-byte literals and comments, several invocations per line, the method's name also inside string literals and comments as decoys; a calling class of another package reaches the renamed method's class through a single-type import, through a wildcard import of its package only, or through both, among unrelated wildcard imports; subclasses call methods their project superclass declares as super.m(...)) and a rename request for a class method whose name is unique in its class, preferring methods with call sites, and among those methods called from another file; new names of length 1, the same length, 20-40 characters, or 1-13 characters. Oracle: the allowed edits are the declaration identifier and the callee identifier of every call the pre-rename model attributes to the method (positions taken from the model, cross-checked against the printer's table: the declaration and every generated call site with an implicit / field / parameter / local receiver of that class must be among them); all edits are applied to the original text at once (in characters) and every file of the project must byte-equal the result; then the rewritten tree is re-analysed and must give the original model with the method and those calls renamed and start columns shifted. Non-trivial = at least 2 edited tokens and (two on one line, or multi-byte text left of a token, or a length change); distinct = hash of the case.",
+	pbt.Describe("rapid-generated conventional Java projects (jgen, 1-4 units with method bodies, multi-byte literals and comments, several invocations per line, the method's name also inside string literals and comments as decoys; a calling class of another package reaches the renamed method's class through a single-type import, through a wildcard import of its package only, or through both, among unrelated wildcard imports; subclasses call methods their project superclass declares as super.m(...); method, variable and class names drawn from the whole identifier alphabet: besides ASCII letters and digits also `_`, `$` (not in class names) and letters outside ASCII (run4$impl, _calc7, m12größe, 値load3, class Order5_v, Item7É), packages with digits and underscores (com.acme2.v1_0)) and a rename request for a class method whose name is unique in its class, preferring methods with call sites, and among those methods called from another file; new names of length 1, the same length (in characters), 20-40 characters, or 1-13 characters, made of letters with up to three characters replaced by `_`, `$`, a digit or a letter outside ASCII (Latin-1, Greek, Cyrillic, CJK). Oracle: the allowed edits are the declaration identifier and the callee identifier of every call the pre-rename model attributes to the method (positions taken from the model, cross-checked against the printer's table: the declaration and every generated call site with an implicit / field / parameter / local receiver of that class must be among them); all edits are applied to the original text at once (in characters) and every file of the project must byte-equal the result; then the rewritten tree is re-analysed and must give the original model with the method and those calls renamed and start columns shifted. Non-trivial = at least 2 edited tokens and (two on one line, or multi-byte text left of a token, or a length change); distinct = hash of the case.",
 		"rename subjects are class methods (interface method positions start at the first token of the declaration, DESIGN.md appendix B) whose name is not overloaded in the class",
-		"the new name is fresh in the project (letters only; all generated identifiers end in a digit)",
+		"the new name is fresh in the project (it is compared with every identifier written in the project's files and lengthened when it occurs) and is not a keyword",
+		"lengths and columns are counted in characters (the model's columns are the lexer's), so `same length` and the shift of columns right of an edit refer to characters, not bytes",
 		"simple class names are unique in the project, so a class reached through a wildcard import is still denoted by its plain name",
 		"super.m(...) calls are not required to be attributed to the superclass's method (the statement's edits are the calls the model attributes); when the model does attribute them they must be renamed like any other call",
 		"one case in fifteen goes through the sub-process `coca refactor -R conf -d deps.json` with the model serialised to deps.json")
